@@ -27,6 +27,8 @@ With s = the logical time at which the stop call returned, refuted by:
   i  after s the job thread stays blocked (unable to run, as opposed to merely
      not scheduled) for more than 5 virtual seconds + 2 ticks.
 """
+import os
+import shutil
 import sys
 
 from bvf import env, sched, simnet, vsys
@@ -104,6 +106,20 @@ SUCCESSOR_LOG = [('B', 'set_power', True), ('B', 'set_power', False),
                  ('out', 7)]
 
 
+SCRIPT_DIR = os.path.join(env.VERIF, '.work', 'c09-scripts-{}'.format(
+    os.getpid()))
+
+
+def script_files():
+    """the shapes as files, for starts that go through the front end"""
+    if not os.path.isdir(SCRIPT_DIR):
+        os.makedirs(SCRIPT_DIR)
+        for name, text in SHAPES.items():
+            with open(os.path.join(SCRIPT_DIR, name + '.ls'), 'w') as f:
+                f.write(text + '\n')
+    return SCRIPT_DIR
+
+
 def successor_events(log, marker, dev='B'):
     out = []
     for e in log:
@@ -116,21 +132,22 @@ def successor_events(log, marker, dev='B'):
 
 def run_scenario(seed, shape, entry, delay_steps, tick, policy, depth,
                  with_successor, early=None, early_steps=0,
-                 early_entry='stop_current'):
+                 early_entry='stop_current', via_web=False, early_delay=0):
     env.THREAD_EXCEPTIONS.clear()
     env.MACHINE_STOPS.clear()
     s = sched.begin(seed, policy=policy, depth=depth, max_steps=300000)
     res = {'deadlock': None, 'problems': [], 'stop_raised': None}
     inst = {'starts': [], 'cur': None}
     try:
-        vsys.configure(DEVICES, tick)
+        vsys.configure(DEVICES, tick,
+                       overrides={'script_path': script_files()}
+                       if via_web else None)
         simnet.STAMP = lambda: (s.steps, inst['cur'])
         simnet.STAMPS.clear()
         app = web_app_mod.WebApp()          # manifest_file_name is None
         jc = app._jobs
-        job1 = ScriptJob.from_string(SHAPES[shape])
-        assert job1.program is not None, job1.compile_errors
-        table = job1._machine._fn_table
+        clock_events = []
+        res['clock_events'] = clock_events
 
         def wrap(fn):
             def stepped():
@@ -138,13 +155,44 @@ def run_scenario(seed, shape, entry, delay_steps, tick, policy, depth,
                 inst['starts'].append(s.steps)
                 fn()
             return stepped
-        for op in list(table):
-            if op is not OpCode.STOP:
-                table[op] = wrap(table[op])
-        clock_events = []
-        vsys.ClockProbe(job1._machine._clock, clock_events)
-        res['clock_events'] = clock_events
-        agent1 = jc.add_job(job1, 'job1')
+
+        def instrument(job):
+            if getattr(job, '_bvf_instrumented', False):
+                return
+            job._bvf_instrumented = True
+            table = job._machine._fn_table
+            for op in list(table):
+                if op is not OpCode.STOP:
+                    table[op] = wrap(table[op])
+            vsys.ClockProbe(job._machine._clock, clock_events)
+
+        def start(name):
+            """starts SHAPES[shape] under the given job name: directly, or
+            the way the web front end does it (WebApp.queue_script compiles
+            the listed file and hands the job to the controller)"""
+            if not via_web:
+                job = ScriptJob.from_string(SHAPES[shape])
+                assert job.program is not None, job.compile_errors
+                if name == 'job1':
+                    instrument(job)
+                return job, jc.add_job(job, name)
+            got = []
+            orig_add = jc.add_job
+
+            def add_job(job, job_name=None):
+                if name == 'job1':
+                    instrument(job)
+                got.append(job)
+                got.append(orig_add(job, job_name))
+                return got[-1]
+            jc.add_job = add_job
+            try:
+                app.queue_script(web_app_mod.ScriptControl(
+                    shape + '.ls', False, shape, name))
+            finally:
+                del jc.add_job
+            return got[0], got[1]
+        job1, agent1 = start('job1')
         agent2 = None
         if with_successor:
             agent2 = jc.add_job(ScriptJob.from_string(SUCCESSOR), 'job2')
@@ -177,6 +225,10 @@ def run_scenario(seed, shape, entry, delay_steps, tick, policy, depth,
         blocked_at_stop = rec1.blocked_time
         agent_e = None
         if early:
+            # ... or a little later, while the stopped job winds down and the
+            # controller moves on to the next one
+            for _ in range(early_delay):
+                s.switch('driver')
             agent_e = jc.add_job(ScriptJob.from_string(EARLY[early]), 'early')
         s.block_until(lambda: rec1.done or
                       rec1.steps - res['own_steps_at_stop'] > OWN_STEPS,
@@ -237,8 +289,7 @@ def run_scenario(seed, shape, entry, delay_steps, tick, policy, depth,
             if shape in RERUN:
                 # the same script, started again the way the front ends do it
                 # (a fresh job object per start)
-                agent4 = jc.add_job(ScriptJob.from_string(SHAPES[shape]),
-                                    'job1-again')
+                agent4 = start('job1-again')[1]
             s0 = s.steps
             s.block_until(lambda: not jc.has_jobs()
                           or s.steps - s0 > 150000, 'reruns')
@@ -422,13 +473,20 @@ def run_shard(ctx):
         early_steps = rng.randint(0, 80)
         early_entry = rng.choice(['stop_current', 'stop_current', 'stop_job',
                                   'stop_all'])
+        early_delay = rng.choice([0, 0, rng.randint(1, 40),
+                                  rng.randint(1, 150)])
+        via_web = rng.random() < 0.4
+        if via_web:
+            ctx.count('started_through_front_end')
         res = run_scenario(seed, shape, entry, delay, tick, policy, depth,
-                           with_successor, early, early_steps, early_entry)
+                           with_successor, early, early_steps, early_entry,
+                           via_web, early_delay)
         replay = {'shape': shape, 'entry': entry, 'delay_steps': delay,
                   'tick': tick, 'policy': policy, 'depth': depth, 'seed': seed,
                   'successor': with_successor, 'script': SHAPES[shape],
                   'early': early, 'early_steps': early_steps,
-                  'early_entry': early_entry}
+                  'early_entry': early_entry, 'via_web': via_web,
+                  'early_delay': early_delay}
         if early:
             ctx.count('early:' + early)
         ok = check(ctx, res, shape, entry, with_successor, replay)
@@ -447,6 +505,7 @@ def run_shard(ctx):
                         res.get('position'), 'own_steps_to_terminate':
                         res.get('own_steps_used')})
     ctx.extra['positions'] = hist
+    shutil.rmtree(SCRIPT_DIR, ignore_errors=True)
 
 
 def finalize(merged):
@@ -476,7 +535,8 @@ def replay(doc):
     res = run_scenario(r['seed'], r['shape'], r['entry'], r['delay_steps'],
                        r['tick'], r['policy'], r['depth'], r['successor'],
                        r.get('early'), r.get('early_steps', 0),
-                       r.get('early_entry', 'stop_current'))
+                       r.get('early_entry', 'stop_current'),
+                       r.get('via_web', False), r.get('early_delay', 0))
     print({k: v for k, v in res.items() if k not in ('log', 'stamps', 'starts',
                                                      'schedule')})
     check(ctx, res, r['shape'], r['entry'], r['successor'], r)
